@@ -184,43 +184,296 @@ def findLL (d : Delims) : FindStart
     | some (m, n) => some (0, m, n)
     | none => shift (findLL d (c :: pre) r)
 
-/-- the search `Tokenizer` uses: memchr for the default delimiters, leftmost-longest otherwise -/
+/-! ### the Aho-Corasick path of `find_start_marker` as it is built in `syntax.rs` -/
+
+/-- the loop of `Delims::validated_start_delims` -/
+def validatedGo : List (List Char × Bool) → List (List Char) → Option (List (List Char))
+  | [], acc => some acc
+  | (p, required) :: r, acc =>
+    if p.isEmpty then (if required then none else validatedGo r acc)
+    else if acc.contains p then none
+    else validatedGo r (acc ++ [p])
+
+/-- `Delims::validated_start_delims`: the start patterns in the order in which they are handed to
+    the automaton; `none` = `InvalidDelimiter` -/
+def validatedStartDelims (d : Delims) : Option (List (List Char)) :=
+  validatedGo [(d.vs, true), (d.bs, true), (d.cs, true), (d.ls, false), (d.lc, false)] []
+
+/-- `SyntaxConfig::pattern_to_marker` -/
+def patternToMarker (d : Delims) (idx : Nat) : Marker :=
+  match idx with
+  | 0 => .var
+  | 1 => .block
+  | 2 => .comment
+  | 3 => if d.ls.isEmpty then .lineComment else .lineStmt
+  | _ => .lineComment
+
+/-- one overlapping match: start offset, pattern index, pattern length -/
+structure AcMatch where
+  start : Nat
+  idx : Nat
+  len : Nat
+  deriving Repr, DecidableEq
+
+def AcMatch.stop (m : AcMatch) : Nat := m.start + m.len
+
+/-- the patterns (with their index) that end exactly at offset `e` of `rest` -/
+def matchesEndingAt (pats : List (List Char)) (rest : List Char) (e : Nat) : List AcMatch :=
+  (pats.zipIdx).filterMap fun (p, i) =>
+    if p.length ≤ e && startsWith p (rest.drop (e - p.length)) then some ⟨e - p.length, i, p.length⟩ else none
+
+/-- what `find_overlapping` reports: every occurrence of every pattern, ordered by the offset at
+    which it ends -/
+def acMatches (pats : List (List Char)) (rest : List Char) : List AcMatch :=
+  (List.range (rest.length + 1)).flatMap (matchesEndingAt pats rest)
+
+/-- `AhoCorasick::max_pattern_len` -/
+def maxPatternLen (pats : List (List Char)) : Nat := pats.foldl (fun a p => max a p.length) 0
+
+/-- the loop of `find_start_marker` over the overlapping matches (`best` = `longest_match`) -/
+def acLoop (d : Delims) (maxLen : Nat) (pre rest : List Char) : Found → List AcMatch → Found
+  | best, [] => best
+  | best, m :: ms =>
+    let process : Found :=
+      let marker := patternToMarker d m.idx
+      if marker = .lineStmt && !lineStartP ((rest.take m.start).reverse ++ pre) then acLoop d maxLen pre rest best ms
+      else acLoop d maxLen pre rest (some (m.start, marker, m.len)) ms
+    match best with
+    | some (s, _, _) =>
+      if m.stop > s + maxLen then best
+      else if m.start > s then acLoop d maxLen pre rest best ms
+      else process
+    | none => process
+
+/-- the custom-delimiter search: automaton over the validated start delimiters + the loop -/
+def acFind (d : Delims) : FindStart := fun pre rest =>
+  match validatedStartDelims d with
+  | none => none
+  | some pats => acLoop d (maxPatternLen pats) pre rest none (acMatches pats rest)
+
+/-- the search `Tokenizer` uses (`SyntaxConfigBuilder::build`): memchr for the default delimiters,
+    the automaton otherwise -/
 def findStart (d : Delims) : FindStart :=
-  if d = defaultDelims then fun _ rest => findStartDefault rest else findLL d
+  if d = defaultDelims then fun _ rest => findStartDefault rest else acFind d
 
 /-! ## tag interiors -/
 
-def bump (k : Nat) : Option (Nat × Ws) → Option (Nat × Ws)
-  | some (n, w) => some (n + k, w)
-  | none => none
+/-- result of scanning a tag interior -/
+inductive ScanRes where
+  /-- the tag ends; `rest` is what follows the end delimiter (the line break for a line statement),
+      `ws` the marker in front of the end delimiter -/
+  | found (rest : List Char) (ws : Ws)
+  /-- the input ends inside the tag -/
+  | eof
+  /-- the lexer reports a syntax error inside the tag -/
+  | error
+  /-- outside the modelled fragment (non-ASCII identifiers, `\u`/`\x`/octal string escapes) -/
+  | unsupported
+  deriving Repr, DecidableEq
 
-/-- `tokenize_block_or_var` for interiors of identifiers and ASCII whitespace: number of characters
-    up to and including the end delimiter `e`, and the marker in front of it.  `inId` = inside an
-    identifier (the end delimiter is only looked for at token boundaries). -/
-def scanTag (e : List Char) : Bool → List Char → Option (Nat × Ws)
-  | _, [] => none
-  | inId, c :: r =>
-    if inId && isIdentCont c then bump 1 (scanTag e true r)
-    else if isAsciiWs c then bump 1 (scanTag e false r)
-    else if (c = '-' || c = '+') && startsWith e r then
-      some (1 + e.length, if c = '-' then .remove else .preserve)
-    else if startsWith e (c :: r) then some (e.length, .dflt)
-    else if isIdentStart c then bump 1 (scanTag e true r)
-    else none
+/-- `enum State` of `eat_number` -/
+inductive NSt where
+  | radixInt | int | frac | exp | expSign
+  deriving Repr, DecidableEq
 
-/-- line statement interior: characters consumed up to and including the line break -/
-def scanLine : Bool → List Char → Option Nat
-  | _, [] => some 0
-  | inId, c :: r =>
-    if inId && isIdentCont c then (scanLine true r).map (· + 1)
-    else
-      let h := (c :: r).takeWhile isHws
-      let after := (c :: r).dropWhile isHws
-      let (wasNl, n) := skipNl after
-      if wasNl then some (h.length + n)
-      else if isAsciiWs c then (scanLine false r).map (· + 1)
-      else if isIdentStart c then (scanLine true r).map (· + 1)
-      else none
+/-- what `eat_number` knows about the number so far -/
+structure Num where
+  radix : Nat
+  st : NSt
+  /-- the text so far ends in `_` -/
+  lastUs : Bool
+  /-- digits of the integer (after a radix prefix) -/
+  nDigits : Nat
+  val : Nat
+  /-- a digit that does not exist in this radix was seen -/
+  bad : Bool
+  expDigits : Nat
+  deriving Repr, DecidableEq
+
+inductive Mode where
+  | top
+  | ident
+  | str (q : Char) (esc : Bool)
+  | num (n : Num)
+  deriving Repr, DecidableEq
+
+def isDigit (c : Char) : Bool := '0'.toNat ≤ c.toNat && c.toNat ≤ '9'.toNat
+
+def isHexLetter (c : Char) : Bool :=
+  ('a'.toNat ≤ c.toNat && c.toNat ≤ 'f'.toNat) || ('A'.toNat ≤ c.toNat && c.toNat ≤ 'F'.toNat)
+
+def hexLetterVal (c : Char) : Nat :=
+  if 'a'.toNat ≤ c.toNat then c.toNat - 'a'.toNat + 10 else c.toNat - 'A'.toNat + 10
+
+inductive NumNext where
+  | cont (n : Num)
+  | stop
+  | unsup
+
+/-- one iteration of the loop in `eat_number` (`r` = what follows `c`) -/
+def numStep (n : Num) (c : Char) (r : List Char) : NumNext :=
+  if c = '.' && n.st = .int then
+    let isExp := match r with
+      | a :: b :: _ => (a = 'e' || a = 'E') && (b = '+' || b = '-' || isDigit b)
+      | _ => false
+    match r with
+    | a :: _ =>
+      if isExp then .cont { n with st := .frac, lastUs := false }
+      else if a.toNat ≥ 128 then .unsup
+      else if isIdentStart a then .stop
+      else .cont { n with st := .frac, lastUs := false }
+    | [] => .cont { n with st := .frac, lastUs := false }
+  else if (c = 'E' || c = 'e') && (n.st = .int || n.st = .frac) then .cont { n with st := .exp, lastUs := false }
+  else if (c = '+' || c = '-') && n.st = .exp then .cont { n with st := .expSign, lastUs := false }
+  else if isDigit c && n.st = .exp then
+    .cont { n with st := .expSign, lastUs := false, expDigits := n.expDigits + 1 }
+  else if isDigit c then
+    let dv := c.toNat - '0'.toNat
+    match n.st with
+    | .int | .radixInt =>
+      .cont { n with lastUs := false, nDigits := n.nDigits + 1, val := n.val * n.radix + dv, bad := n.bad || decide (n.radix ≤ dv) }
+    | .expSign => .cont { n with lastUs := false, expDigits := n.expDigits + 1 }
+    | _ => .cont { n with lastUs := false }
+  else if isHexLetter c && n.st = .radixInt && n.radix = 16 then
+    .cont { n with lastUs := false, nDigits := n.nDigits + 1, val := n.val * 16 + hexLetterVal c }
+  else if c = '_' then .cont { n with lastUs := true }
+  else .stop
+
+/-- the number token is accepted (no trailing `_`, `str::parse::<f64>` / `from_str_radix` succeed) -/
+def numValid (n : Num) : Bool :=
+  !n.lastUs && match n.st with
+    | .int | .radixInt => decide (0 < n.nDigits) && !n.bad && decide (n.val < 340282366920938463463374607431768211456)
+    | .frac => true
+    | .exp => false
+    | .expSign => decide (0 < n.expDigits)
+
+/-- radix prefix `0b` / `0o` / `0x` -/
+def radixPrefix (c : Char) (r : List Char) : Option Nat :=
+  if c = '0' then
+    match r with
+    | a :: _ =>
+      if a = 'b' || a = 'B' then some 2 else if a = 'o' || a = 'O' then some 8
+      else if a = 'x' || a = 'X' then some 16 else none
+    | [] => none
+  else none
+
+def numInit (radix : Nat) (st : NSt) : Num :=
+  { radix := radix, st := st, lastUs := false, nDigits := 0, val := 0, bad := false, expDigits := 0 }
+
+/-- state after the first digit of a decimal number -/
+def numFirst (c : Char) : Num :=
+  { radix := 10, st := .int, lastUs := false, nDigits := 1, val := c.toNat - '0'.toNat, bad := false, expDigits := 0 }
+
+def twoCharOp (a b : Char) : Bool :=
+  (a = '/' && b = '/') || (a = '*' && b = '*') || (a = '=' && b = '=') || (a = '!' && b = '=') ||
+    (a = '>' && b = '=') || (a = '<' && b = '=')
+
+/-- single character operators with their effect on `paren_balance` -/
+def singleOp (c : Char) : Option Int :=
+  if c = '+' || c = '-' || c = '*' || c = '/' || c = '%' || c = '.' || c = ',' || c = ':' || c = '~' ||
+      c = '|' || c = '=' || c = '>' || c = '<' then some 0
+  else if c = '(' || c = '[' || c = '{' then some 1
+  else if c = ')' || c = ']' || c = '}' then some (-1)
+  else none
+
+/-- line statements end at the end of their line: blanks, then a line break or the end of input -/
+def lineEnd (s : List Char) : Option (List Char) :=
+  let after := s.dropWhile isHws
+  if after.isEmpty then some []
+  else if 0 < nlLen after then some (after.drop (nlLen after))
+  else none
+
+inductive Cont where
+  | go (m : Mode)
+  | boundary
+  | fail (r : ScanRes)
+
+/-- does the token that is being read continue with `c`? -/
+def tokCont (m : Mode) (c : Char) (r : List Char) : Cont :=
+  match m with
+  | .top => .boundary
+  | .ident =>
+    if isIdentCont c then .go .ident else if c.toNat ≥ 128 then .fail .unsupported else .boundary
+  | .str q esc =>
+    if esc then
+      (if c = 'u' || c = 'x' || ('0'.toNat ≤ c.toNat && c.toNat ≤ '7'.toNat) then .fail .unsupported
+       else .go (.str q false))
+    else if c = '\\' then .go (.str q true)
+    else if c = q then .go .top
+    else .go (.str q false)
+  | .num n =>
+    match numStep n c r with
+    | .cont n' => .go (.num n')
+    | .unsup => .fail .unsupported
+    | .stop => if numValid n then .boundary else .fail .error
+
+/-- what to do after looking at one character -/
+inductive Next where
+  | done (r : ScanRes)
+  /-- continue in mode `m` with bracket depth `bal` behind this character (`two`: behind the next
+      one as well) -/
+  | goto (m : Mode) (bal : Int) (two : Bool)
+
+/-- `c` and the character behind it form a two character operator -/
+def isTwo (c : Char) (r : List Char) : Bool :=
+  match r with
+  | c2 :: _ => twoCharOp c c2
+  | [] => false
+
+/-- operators, literals and identifiers: the token that starts with `c` -/
+def dispatch (bal : Int) (c : Char) (r : List Char) : Next :=
+  if isTwo c r then .goto .top bal true
+  else
+    match singleOp c with
+    | some dl => .goto .top (bal + dl) false
+    | none =>
+      if c = '\'' || c = '"' then .goto (.str c false) bal false
+      else if isDigit c then
+        match radixPrefix c r with
+        | some rad => .goto (.num (numInit rad .radixInt)) bal true
+        | none => .goto (.num (numFirst c)) bal false
+      else if isIdentStart c then .goto .ident bal false
+      else if c.toNat ≥ 128 then .done .unsupported
+      else .done .error
+
+/-- at a token boundary (`tokenize_block_or_var` is entered with `c :: r` unread): line end, blanks,
+    end of the tag, then the next token -/
+def topStep (e : List Char) (line : Bool) (bal : Int) (c : Char) (r : List Char) : Next :=
+  match (if line && bal == 0 then lineEnd (c :: r) else none) with
+  | some rest => .done (.found rest .dflt)
+  | none =>
+    if isAsciiWs c then .goto .top bal false
+    else if !line && bal == 0 && (c = '-' || c = '+') && startsWith e r then
+      .done (.found (r.drop e.length) (if c = '-' then .remove else .preserve))
+    else if !line && bal == 0 && startsWith e (c :: r) then .done (.found ((c :: r).drop e.length) .dflt)
+    else dispatch bal c r
+
+/-- one character in mode `m` -/
+def scanStep (e : List Char) (line : Bool) (m : Mode) (bal : Int) (c : Char) (r : List Char) : Next :=
+  match tokCont m c r with
+  | .go m' => .goto m' bal false
+  | .fail res => .done res
+  | .boundary => topStep e line bal c r
+
+/-- the input ends inside the tag -/
+def scanEof (line : Bool) (m : Mode) : ScanRes :=
+  match m with
+  | .str _ _ => .error
+  | .num n => if numValid n then (if line then .found [] .dflt else .eof) else .error
+  | _ => if line then .found [] .dflt else .eof
+
+/-- `tokenize_block_or_var` up to the end of the tag.  `e` = end delimiter, `line` = the tag is a
+    line statement (ends at the end of its line instead), the `Int` is `paren_balance`. -/
+def scanTag (e : List Char) (line : Bool) : Mode → Int → List Char → ScanRes
+  | m, _, [] => scanEof line m
+  | m, bal, c :: r =>
+    match scanStep e line m bal c r with
+    | .done res => res
+    | .goto m' bal' false => scanTag e line m' bal' r
+    | .goto m' bal' true =>
+      match r with
+      | _ :: r2 => scanTag e line m' bal' r2
+      | [] => .error
 
 /-- the optional `-`/`+` in front of `endraw` (`skip_ws_control`) -/
 def stripMarkerIf (b : Bool) (s : List Char) : List Char :=
@@ -339,9 +592,11 @@ def handleTag (cfg : Cfg) (d : Delims) (lead : List Out) (marker : Marker) (skip
       let kt := tailWs cfg wsEnd (after.drop n)
       contAfter lead [] preTag after (n + kt.1) kt.2
   | .var =>
-    match scanTag d.ve false inner with
-    | none => .stop .unsupported
-    | some (n, wsEnd) => contAfter lead [.var] preTag after (skip + n) (wsEnd = .remove)
+    match scanTag d.ve false .top 0 inner with
+    | .found rest wsEnd => contAfter lead [.var] preTag after (skip + (inner.length - rest.length)) (wsEnd = .remove)
+    | .eof => .stop (.ok (lead ++ [.var]))
+    | .error => .stop (.err (lead ++ [.var]))
+    | .unsupported => .stop .unsupported
   | .block =>
     match skipBasicTag inner rawName d.be false with
     | some (n, wsStart) =>
@@ -355,16 +610,20 @@ def handleTag (cfg : Cfg) (d : Delims) (lead : List Out) (marker : Marker) (skip
         let kt := tailWs cfg wsNext (after.drop total)
         contAfter lead [.data (rawData cfg wsStart wsL preRaw content)] preTag after (total + kt.1) kt.2
     | none =>
-      match scanTag d.be false inner with
-      | none => .stop .unsupported
-      | some (n, wsEnd) =>
-        let total := skip + n
+      match scanTag d.be false .top 0 inner with
+      | .found rest wsEnd =>
+        let total := skip + (inner.length - rest.length)
         let kt := tailWs cfg wsEnd (after.drop total)
         contAfter lead [.blk] preTag after (total + kt.1) kt.2
+      | .eof => .stop (.ok (lead ++ [.blk]))
+      | .error => .stop (.err (lead ++ [.blk]))
+      | .unsupported => .stop .unsupported
   | .lineStmt =>
-    match scanLine false inner with
-    | none => .stop .unsupported
-    | some n => contAfter lead [.blk] preTag after (skip + n) false
+    match scanTag [] true .top 0 inner with
+    | .found rest _ => contAfter lead [.blk] preTag after (skip + (inner.length - rest.length)) false
+    | .eof => .stop (.ok (lead ++ [.blk]))
+    | .error => .stop (.err (lead ++ [.blk]))
+    | .unsupported => .stop .unsupported
   | .lineComment =>
     let c := inner.takeWhile (fun c => !isNl c)
     let n := skip + c.length + (skipNl (inner.drop c.length)).2
